@@ -40,11 +40,15 @@ type Piece struct {
 	Kind string   `json:"kind"`
 	Text string   `json:"text"`
 	Refs []string `json:"refs,omitempty"`
+	// Rotate: the package decides which suffix of Refs is used (t pieces)
+	Rotate bool `json:"rotate,omitempty"`
 }
 
 type DeferAction struct {
 	Render []Piece `json:"render,omitempty"`
 	Err    string  `json:"err,omitempty"` // "" | error
+	// Then: callbacks this callback registers itself (through Context.Defer) while it runs
+	Then []DeferAction `json:"then,omitempty"`
 }
 
 // Action is what a scripted generator does for one type.
@@ -70,7 +74,7 @@ type Script struct {
 // Call is one entry of the call log.
 type Call struct {
 	Seq      int    `json:"seq"`
-	Kind     string `json:"kind"` // type | alias | defer | new
+	Kind     string `json:"kind"` // type | alias | register | defer | new
 	Gen      string `json:"gen"`
 	Pkg      string `json:"pkg"`               // package being processed: c.Package("").Pkg().Path()
 	TypePkg  string `json:"typepkg,omitempty"` // package of the type handed over
@@ -90,6 +94,7 @@ var (
 	current   = map[string]*Script{}
 	calls     []Call
 	instances int
+	deferIDs  int
 	preTree   map[string]string // absolute path -> content before the run (only <base>.* files matter)
 	baseName  string
 )
@@ -122,6 +127,9 @@ type state struct {
 	counter int
 	helper  bool
 	seen    map[string]bool
+	// memo is allocated lazily by every instance; the prototypes built by Build carry an already allocated one, the way a
+	// generator made by a constructor would (a fresh zero-value instance must not see it)
+	memo map[string]int
 }
 
 func (s *state) instance() int {
@@ -134,7 +142,8 @@ func (s *state) instance() int {
 
 type fixed[N nm] struct{ st state }
 
-func (f *fixed[N]) Name() string { var n N; return n.N() }
+func (f *fixed[N]) Name() string     { var n N; return n.N() }
+func (f *fixed[N]) protoState() *state { return &f.st }
 func (f *fixed[N]) GenerateType(c gengo.Context, t *types.Named) error {
 	return generate(current[f.Name()], &f.st, c, t.Obj(), false)
 }
@@ -200,6 +209,12 @@ func Build(s *Script) (gengo.Generator, error) {
 	default:
 		return nil, fmt.Errorf("script: no fixed generator type named %q", s.Name)
 	}
+	// the prototype handed to gengo carries initialised reference state
+	for _, proto := range []gengo.Generator{g, ga} {
+		if ps, ok := proto.(interface{ protoState() *state }); ok {
+			ps.protoState().memo = map[string]int{}
+		}
+	}
 	if s.Alias {
 		return ga, nil
 	}
@@ -211,7 +226,7 @@ func expand(text string, gen string, typ string, st *state) string {
 	if !st.helper {
 		h = "first"
 	}
-	return strings.NewReplacer("$T", typ, "$G", gen, "$N", fmt.Sprint(st.counter), "$H", h).Replace(text)
+	return strings.NewReplacer("$T", typ, "$G", gen, "$N", fmt.Sprint(st.counter), "$H", h, "$M", fmt.Sprint(len(st.memo))).Replace(text)
 }
 
 // recording wraps a snippet so that the bytes flowing into the writer are captured.
@@ -253,10 +268,44 @@ func render(c gengo.Context, pieces []Piece, gen, typ string, st *state, into *s
 			sn = snippet.Block(text)
 		case "t":
 			args := snippet.Args{}
-			for i, r := range p.Refs {
+			refs := p.Refs
+			if p.Rotate && len(refs) > 0 {
+				// which references a package uses depends on the package (not on what else is generated)
+				k := len(c.Package("").Pkg().Path()) % len(refs)
+				refs = append(append([]string{}, refs[k:]...), refs[:k]...)
+				refs = refs[:len(refs)-k]
+				for i := len(refs); i < len(p.Refs); i++ {
+					refs = append(refs, refs[len(refs)-1])
+				}
+			}
+			for i, r := range refs {
 				args[fmt.Sprintf("R%d", i)] = snippet.ID(r)
 			}
 			sn = snippet.T(text, args)
+		case "docforeign":
+			// asks gengo about the documentation of every type of every imported package of the module (renders nothing)
+			imps := c.Package("").Imports()
+			paths := make([]string, 0, len(imps))
+			for ip := range imps {
+				paths = append(paths, ip)
+			}
+			sort.Strings(paths)
+			for _, ip := range paths {
+				ipkg := c.Package(ip)
+				if ipkg == nil || ipkg.Module() == nil || c.Package("").Module() == nil || ipkg.Module().Path != c.Package("").Module().Path {
+					continue
+				}
+				tn := ipkg.Types()
+				names := make([]string, 0, len(tn))
+				for n := range tn {
+					names = append(names, n)
+				}
+				sort.Strings(names)
+				for _, n := range names {
+					_, _ = c.Doc(tn[n])
+				}
+			}
+			continue
 		case "value":
 			var v any
 			if err := json.Unmarshal([]byte(p.Text), &v); err != nil {
@@ -373,6 +422,10 @@ func generate(s *Script, st *state, c gengo.Context, obj *types.TypeName, alias 
 	if st.seen == nil {
 		st.seen = map[string]bool{}
 	}
+	if st.memo == nil {
+		st.memo = map[string]int{}
+	}
+	st.memo[key]++
 	kind := "type"
 	if alias {
 		kind = "alias"
@@ -385,22 +438,29 @@ func generate(s *Script, st *state, c gengo.Context, obj *types.TypeName, alias 
 	render(c, act.Render, s.Name, obj.Name(), st, &into, obj)
 	st.seen[key] = true
 	call.Rendered = into.String()
-	idx := len(calls)
 	calls = append(calls, call)
-	for i, d := range act.Defers {
-		i, d := i, d
-		typ := obj.Name()
+	typ := obj.Name()
+	var register func(c gengo.Context, d DeferAction)
+	register = func(c gengo.Context, d DeferAction) {
+		deferIDs++
+		id := deferIDs
+		calls = append(calls, Call{Seq: len(calls), Kind: "register", Gen: s.Name, Pkg: c.Package("").Pkg().Path(), TypePkg: obj.Pkg().Path(), Type: typ, Instance: st.instance(), DeferIdx: id})
 		c.Defer(func(c gengo.Context) error {
 			dc := Call{Seq: len(calls), Kind: "defer", Gen: s.Name, Pkg: c.Package("").Pkg().Path(), TypePkg: obj.Pkg().Path(), Type: typ, Instance: st.instance(),
-				DeferIdx: i, FileUnchanged: outFileUnchanged(c, s.Name), Err: d.Err}
+				DeferIdx: id, FileUnchanged: outFileUnchanged(c, s.Name), Err: d.Err}
 			var into strings.Builder
 			render(c, d.Render, s.Name, typ, st, &into, obj)
 			dc.Rendered = into.String()
 			calls = append(calls, dc)
-			return toErr(d.Err, fmt.Sprintf("defer %d of %s", i, key))
+			for _, then := range d.Then {
+				register(c, then)
+			}
+			return toErr(d.Err, fmt.Sprintf("deferred callback %d of %s", id, key))
 		})
 	}
-	_ = idx
+	for _, d := range act.Defers {
+		register(c, d)
+	}
 	return toErr(act.Err, key)
 }
 
@@ -414,6 +474,8 @@ type RunSpec struct {
 	Base        string              `json:"base"`
 	Scripts     []*Script           `json:"scripts,omitempty"`
 	Real        []string            `json:"real,omitempty"` // registered real generators to run after the scripted ones
+	// NoRecover: a panic of a generator is not recovered (child role: the process dies of it)
+	NoRecover bool `json:"norecover,omitempty"`
 }
 
 type RunResult struct {
@@ -465,6 +527,7 @@ func Run(rs RunSpec) (res RunResult) {
 	current = map[string]*Script{}
 	calls = nil
 	instances = 0
+	deferIDs = 0
 	baseName = rs.Base
 	abs, _ := filepath.EvalSymlinks(rs.Dir)
 	preTree = snapshotOutputs(abs, rs.Base)
@@ -489,12 +552,14 @@ func Run(rs RunSpec) (res RunResult) {
 		gens = append(gens, real...)
 	}
 
-	defer func() {
-		if p := recover(); p != nil {
-			res.Panic = fmt.Sprint(p)
-			res.Calls = calls
-		}
-	}()
+	if !rs.NoRecover {
+		defer func() {
+			if p := recover(); p != nil {
+				res.Panic = fmt.Sprint(p)
+				res.Calls = calls
+			}
+		}()
+	}
 	c, err := gengo.NewContext(&gengo.GeneratorArgs{
 		Globals: rs.Globals, Entrypoint: rs.Entrypoints, OutputFileBaseName: rs.Base, All: rs.All, Force: rs.Force,
 	})
